@@ -54,6 +54,7 @@ CASES = [
     dict(name='range_ctl', cxx="range< '\\t', '\\r' >", eats='\n\r', quick=1),
     dict(name='not_range', cxx="not_range< 'a', 'z' >", eats='\n\r', quick=1),
     dict(name='ranges_lf', cxx="ranges< 'a', 'z', '\\n' >", eats='\n', quick=1),
+    dict(name='ranges_even', cxx="ranges< 'a', 'z', '\\t', '\\r' >", eats='\n\r', quick=1),   # even argument count, both line-counting characters in the LAST pair
     dict(name='ranges_ctl', cxx="ranges< '\\t', '\\n', 'a', 'z', '\\r' >", eats='\n\r'),
     dict(name='string_ab', cxx="string< 'a', 'b' >", eats=''),
     dict(name='string_alfb', cxx="string< 'a', '\\n', 'b' >", eats='\n', quick=1),
